@@ -1,5 +1,23 @@
 import WcModel.Properties.C08
+import WcModel.Properties.C08all
 #print axioms WcModel.C08.capture_invisible
 #print axioms WcModel.C08.strip_certificate
 #print axioms WcModel.C08.eraseCap_invisible
 #print axioms WcModel.C08.nonvacuous
+#print axioms WcModel.C08.Twin.plain_eq
+#print axioms WcModel.C08.twin_items
+#print axioms WcModel.C08.translate_twin_rel
+#print axioms WcModel.C08.translate_twin
+#print axioms WcModel.C08.translate_twin_fullMatch
+#print axioms WcModel.C08.winDrive_congr
+#print axioms WcModel.C08.ofFlags_twin
+#print axioms WcModel.C08.translate_twin_flags
+#print axioms WcModel.C08.translate_twin_nonvacuous
+#print axioms WcModel.C08.translate_twin_error_nonvacuous
+#print axioms WcModel.C08.translate_capture_count
+#print axioms WcModel.C08.translate_capture_count_flags
+#print axioms WcModel.C08.translate_capture_exact
+#print axioms WcModel.C08.translate_capture_exact_flags
+#print axioms WcModel.C08.translate_capture_count_nonvacuous
+#print axioms WcModel.C08.DriveLeaf_needed
+#print axioms WcModel.C08.DriveCapFree_needed
